@@ -168,6 +168,47 @@ func (c *Ctx) dupPairs(fd *ast.FuncDecl) (pairs []dupPair, r2ok bool, finalTrue 
 		if ret, ok := fd.Body.List[n-1].(*ast.ReturnStmt); ok && len(ret.Results) == 1 {
 			if tv, ok := c.Info.Types[ret.Results[0]]; ok && tv.Value != nil && tv.Value.String() == "true" {
 				finalTrue = true
+			} else {
+				// `return a == b && cmp(c, d) && ...`: each conjunct is the positive form of `if <negation> { return false }`
+				var conj []ast.Expr
+				var split func(e ast.Expr)
+				split = func(e ast.Expr) {
+					e = ast.Unparen(e)
+					if b, ok := e.(*ast.BinaryExpr); ok && b.Op == token.LAND {
+						split(b.X)
+						split(b.Y)
+						return
+					}
+					conj = append(conj, e)
+				}
+				split(ret.Results[0])
+				all := len(conj) > 0
+				for _, e := range conj {
+					switch t := e.(type) {
+					case *ast.BinaryExpr:
+						if t.Op == token.EQL {
+							mk(t.X, t.Y, "!=", t.Pos(), false, true)
+						} else {
+							all = false
+						}
+					case *ast.CallExpr:
+						name := c.calleeName(t)
+						if sel, ok := t.Fun.(*ast.SelectorExpr); ok && len(t.Args) == 1 {
+							if _, isM := c.Info.Selections[sel]; isM {
+								mk(sel.X, t.Args[0], name, t.Pos(), false, true)
+								continue
+							}
+						}
+						if len(t.Args) == 2 {
+							mk(t.Args[0], t.Args[1], name, t.Pos(), false, true)
+						} else {
+							all = false
+						}
+					default:
+						all = false
+					}
+				}
+				finalTrue = all
 			}
 		}
 	}
